@@ -299,7 +299,7 @@ pub struct Desc {
 
 fn num(x: f64) -> Value {
   // integral values are written as JSON integers now and then (as in the crate's own examples)
-  if x.fract() == 0.0 && x.abs() < 1e15 && (x.to_bits() >> 3) & 1 == 0 {
+  if x.fract() == 0.0 && x.abs() < 1e15 && (x.to_bits() >> 3) & 1 == 0 && !(x == 0.0 && x.is_sign_negative()) {
     json!(x as i64)
   } else {
     json!(x)
@@ -600,7 +600,11 @@ pub fn gen_valid(r: &mut Rng) -> Desc {
     p_waist: dec(r, 20., 500., 2),
     p_bw: dec(r, 0.01, 20., 3),
     p_power: dec(r, 0.1, 500., 2),
-    p_thr: if r.coin() { None } else { Some(*r.pick(&[1e-2, 1e-3, 0.05])) },
+    p_thr: match r.below(4) {
+      0 => None,
+      1 => Some(1e-2),
+      _ => Some(*r.pick(&[1e-3, 0.05, 0.2, 2.5e-2, 0.013579, 1e-4])),
+    },
     signal,
     idler,
     poling,
@@ -953,7 +957,12 @@ fn setup_finite(s: &SPDC) -> Result<(), String> {
         bad.push("period-finite-when-off".into());
       }
     }
-    PeriodicPoling::On { .. } => chk("poling_period", per),
+    PeriodicPoling::On { period, .. } => {
+      chk("poling_period", per);
+      if !(period.value_unsafe > 0.0) {
+        bad.push(format!("poling_period_not_positive={:e}", period.value_unsafe));
+      }
+    }
   }
   if bad.is_empty() {
     Ok(())
@@ -1003,7 +1012,7 @@ fn rel_eq(a: f64, b: f64, eps: f64) -> bool {
 }
 
 /// numeric leaves of two configs agree to `eps` relative, everything else exactly
-fn config_close(a: &SPDCConfig, b: &SPDCConfig, eps: f64) -> Result<(), String> {
+pub fn config_close(a: &SPDCConfig, b: &SPDCConfig, eps: f64) -> Result<(), String> {
   let (mut fa, mut fb) = (vec![], vec![]);
   flatten("", &serde_json::to_value(a).unwrap(), &mut fa);
   flatten("", &serde_json::to_value(b).unwrap(), &mut fb);
@@ -1059,14 +1068,16 @@ fn fields_rounded(s: &SPDC, c: &SPDCConfig) -> Result<(), String> {
   chk("pump.average_power_mw", c.pump.average_power_mw, s.pump_average_power.value_unsafe);
   chk("signal.wavelength_nm", c.signal.wavelength_nm, s.signal.vacuum_wavelength().value_unsafe / 1e-9);
   chk("signal.theta_deg", c.signal.theta_deg.unwrap_or(f64::NAN), s.signal.theta_internal().value_unsafe / deg);
-  chk("signal.phi_deg", c.signal.phi_deg, s.signal.phi().value_unsafe / deg);
+  // an azimuth that rounds up to 360.0000 is written as 0
+  let wrap = |x: f64| if (x * 1e4).round() / 1e4 >= 360.0 { x - 360.0 } else { x };
+  chk("signal.phi_deg", c.signal.phi_deg, wrap(s.signal.phi().value_unsafe / deg));
   chk("signal.waist_um", c.signal.waist_um, s.signal.waist().x.value_unsafe / 1e-6);
   chk("signal.waist_position_um", p(&c.signal.waist_position_um), s.signal_waist_position.value_unsafe / 1e-6);
   match &c.idler {
     AutoCalcParam::Param(i) => {
       chk("idler.wavelength_nm", i.wavelength_nm, s.idler.vacuum_wavelength().value_unsafe / 1e-9);
       chk("idler.theta_deg", i.theta_deg.unwrap_or(f64::NAN), s.idler.theta_internal().value_unsafe / deg);
-      chk("idler.phi_deg", i.phi_deg, s.idler.phi().value_unsafe / deg);
+      chk("idler.phi_deg", i.phi_deg, wrap(s.idler.phi().value_unsafe / deg));
       chk("idler.waist_um", i.waist_um, s.idler.waist().x.value_unsafe / 1e-6);
       chk("idler.waist_position_um", p(&i.waist_position_um), s.idler_waist_position.value_unsafe / 1e-6);
       if i.theta_external_deg.is_some() {
@@ -1097,6 +1108,26 @@ fn fields_rounded(s: &SPDC, c: &SPDCConfig) -> Result<(), String> {
     _ => bad.borrow_mut().push("field=periodic_poling on/off-mismatch".into()),
   }
   chk("deff_pm_per_volt", c.deff_pm_per_volt, s.deff.value_unsafe / (1e-12 / 1000.0));
+  // fields that are carried over as they are
+  let carried = |name: &str, ok: bool, got: String, want: String| {
+    if !ok {
+      bad.borrow_mut().push(format!("field={} got={} setup_holds={}", name, got, want));
+    }
+  };
+  carried(
+    "pump.spectrum_threshold",
+    c.pump.spectrum_threshold == Some(s.pump_spectrum_threshold),
+    format!("{:?}", c.pump.spectrum_threshold),
+    format!("{:?}", s.pump_spectrum_threshold),
+  );
+  carried(
+    "crystal.counter_propagation",
+    c.crystal.counter_propagation == cs.counter_propagation,
+    format!("{}", c.crystal.counter_propagation),
+    format!("{}", cs.counter_propagation),
+  );
+  carried("crystal.kind", c.crystal.kind == cs.crystal, format!("{}", c.crystal.kind), format!("{}", cs.crystal));
+  carried("crystal.pm_type", c.crystal.pm_type == cs.pm_type, format!("{}", c.crystal.pm_type), format!("{}", cs.pm_type));
   let bad = bad.into_inner();
   if bad.is_empty() {
     Ok(())
@@ -1111,6 +1142,8 @@ fn fields_sig(why: &str) -> &'static str {
     "as_config/idler-waist-position-unrounded"
   } else if one && why.contains("field=periodic_poling.apodization.fwhm_um") {
     "as_config/gaussian-fwhm-unrounded"
+  } else if one && why.contains("field=pump.spectrum_threshold") {
+    "as_config/spectrum-threshold"
   } else {
     "as_config/fields"
   }
@@ -1235,6 +1268,19 @@ fn c16_case(ctx: &mut Ctx, d: &Desc) {
   let js2 = guard(|| {
     let txt = serde_json::to_string(&s).ok()?;
     let back = SPDC::from_json(&txt).ok()?;
+    let mut lost = vec![];
+    if back.pump_spectrum_threshold != s.pump_spectrum_threshold {
+      lost.push(format!("field=pump.spectrum_threshold first={:?} second={:?}", s.pump_spectrum_threshold, back.pump_spectrum_threshold));
+    }
+    if back.crystal_setup.counter_propagation != s.crystal_setup.counter_propagation {
+      lost.push("field=crystal.counter_propagation".to_string());
+    }
+    if back.crystal_setup.crystal != s.crystal_setup.crystal || back.crystal_setup.pm_type != s.crystal_setup.pm_type {
+      lost.push("field=crystal.kind/pm_type".to_string());
+    }
+    if !lost.is_empty() {
+      return Some(Err(lost.join(" ; ")));
+    }
     let c = back.as_config();
     Some(config_close(&c1, &c, 1e-9))
   })
@@ -1442,6 +1488,12 @@ fn c17_case(ctx: &mut Ctx, d: &Desc, tag: &str, spectra: bool) {
       }
     }
   }
+  // an automatically determined period phase-matches within the crystal length, else it is an error
+  if let (Some(Ok(s)), PolingD::Cfg { period: AutoV::Auto, .. }) = (&run.outcome, &d.poling) {
+    let period = s.pp.signed_period().value_unsafe.abs();
+    let len = s.crystal_setup.length.value_unsafe;
+    ctx.s("C17.listed", period.is_finite() && period <= len, "listed/period-within-length", &format!("period={:e} length={:e} {}", period, len, det));
+  }
   // the listed errors
   let is_err = matches!(run.outcome, Some(Err(_)));
   let sig_angles_bad = d.signal.theta.is_some() == d.signal.theta_e.is_some();
@@ -1550,6 +1602,77 @@ pub fn run(ctx: &mut Ctx) {
     for k in 0..ctx.n / 2 {
       let d = gen_valid(&mut ctx.rng);
       c17_case(ctx, &d, "none", k < nspec / 2);
+    }
+    // both signal angles given, on boundary VALUES of either angle (and neither), x auto/explicit
+    // crystal angle x poling; the same pairs on an explicit idler
+    let internals = [0.0, -0.0, 1e-300, 1e-9, -1e-9, 1.0, -5.0, 90.0, 400.0, -400.0];
+    let externals = [0.0, -0.0, 1e-9, 3.0, -3.0, 89.9999, 400.0, -400.0];
+    let npairs = if ctx.thorough { 4 } else { 1 };
+    for _ in 0..npairs {
+      for ti in internals.iter() {
+        for te in externals.iter() {
+          let mut d = gen_valid(&mut ctx.rng);
+          d.signal.theta = Some(*ti);
+          d.signal.theta_e = Some(*te);
+          match ctx.rng.below(4) {
+            0 => {
+              d.c_theta = AutoV::Auto;
+              d.poling = PolingD::Absent;
+            }
+            1 => {
+              d.c_theta = AutoV::Val(33.0);
+              d.poling = PolingD::Cfg { period: AutoV::Auto, apod: None };
+            }
+            _ => {}
+          }
+          c17_case(ctx, &d, "both-angles-grid", false);
+          // the idler's pair
+          if ctx.rng.below(3) == 0 {
+            let mut e = gen_valid(&mut ctx.rng);
+            let i_wl = e.signal.wl * e.p_wl / (e.signal.wl - e.p_wl);
+            e.idler = IdlerD::Cfg(BeamD { wl: (i_wl * 100.).round() / 100., phi: None, theta: Some(*ti), theta_e: Some(*te), waist: 100., wpos: AutoV::Absent });
+            let run = run_desc(&e);
+            k_try(ctx, &e, &run);
+            ctx.s("C17.listed", matches!(run.outcome, Some(Err(_))), "listed/idler-angles", &format!("edits=idler-both-angles {}", detail(&e)));
+          }
+        }
+      }
+      let mut d = gen_valid(&mut ctx.rng);
+      d.signal.theta = None;
+      d.signal.theta_e = None;
+      c17_case(ctx, &d, "no-angle", false);
+    }
+    // two steps: the full-precision result of an "auto" crystal angle fed back explicitly together
+    // with an "auto" poling period (the crystal is then phase-matched without poling)
+    let uniaxial = [0usize, 3, 4, 5, 8, 9];
+    let nsteps = if ctx.thorough { 60 } else { 8 };
+    for _ in 0..nsteps {
+      let mut d = gen_valid(&mut ctx.rng);
+      d.kind = *ctx.rng.pick(&uniaxial);
+      let (wlo, whi) = WINDOWS_NM[d.kind];
+      d.p_wl = ((wlo.max(350.) + 0.3 * (whi / 2.0 - wlo.max(350.)).max(0.0) * ctx.rng.unit()) * 10.).round() / 10.;
+      d.signal.wl = 2.0 * d.p_wl;
+      d.pm = *ctx.rng.pick(&[2usize, 3, 4]);
+      d.pm_spelling = ["Type1_e_oo", "Type2_e_eo", "Type2_e_oe"][d.pm - 2].to_string();
+      d.signal.theta = Some(*ctx.rng.pick(&[0.0, 1.0, 3.0]));
+      d.signal.theta_e = None;
+      d.length = *ctx.rng.pick(&[500.0, 2000.0, 20000.0]);
+      d.c_theta = AutoV::Auto;
+      d.poling = PolingD::Absent;
+      d.idler = IdlerD::Auto;
+      d.cp = None;
+      let first = guard(|| SPDC::from_json(d.json().to_string()));
+      let theta_deg = match first {
+        Some(Ok(s)) => s.crystal_setup.theta.value_unsafe / DEG.value_unsafe,
+        _ => continue,
+      };
+      ctx.count("two-step/first-ok");
+      for off in [0.0, 1e-12, -1e-12, 1e-9, -1e-9, 1e-6, -1e-6] {
+        let mut e = d.clone();
+        e.c_theta = AutoV::Val(theta_deg + off);
+        e.poling = PolingD::Cfg { period: AutoV::Auto, apod: None };
+        c17_case(ctx, &e, "two-step-auto-angle-then-auto-period", false);
+      }
     }
     // short crystals with auto period
     for _ in 0..ctx.n / 4 {
